@@ -95,4 +95,22 @@ CHECKS = {
         "note": "Parameter roles are identified by position in the public signatures.",
         "technique": "call-graph containment with argument-flow (who-must-call) on rustc MIR",
     },
+    "C38": {
+        "text": "Claimed as an absence argument: a replay with the same decision input can only diverge through a source of nondeterminism other than the recorded decisions. "
+                "Every non-test body of hydro_lang::sim::{runtime,compiled} (type-checked MIR) is scanned: no iteration in hash order over a RandomState HashMap/HashSet/"
+                "SparseSecondaryMap (detected by receiver type, incl. IntoIterator::into_iter, retain, drain, Flatten - the cases the repo's clippy configuration cannot express), "
+                "except sites whose consumer is recognised order-insensitive or that are reviewed table entries; no clock, OS randomness, pointer-to-integer cast, thread "
+                "spawn; randomness enters only through the bolero driver. Determinism of user closures and of tokio's current-thread scheduler is assumed.",
+        "note": "Trusted: FxHashMap iteration is a function of insertion history; environment variables are inputs.",
+        "technique": "exhaustive type-based call scan (who-may-call / disallowed-source rule) on rustc MIR with consumer classification",
+    },
+    "C42": {
+        "text": "Claimed as an absence argument over the generators: every non-test body of dfir_lang and of hydro_lang (except viz, the sim runtime and telemetry) is scanned on the "
+                "type-checked MIR: no hash-order iteration over RandomState collections reaches generated output (type-based detection incl. into_iter/retain/drain/Flatten; "
+                "consumers classified: sorted after collect, collected into a map/set by pure adaptors, all/any/count/sum; remaining sites are a reviewed table with reasons), no "
+                "pointer-to-integer cast / clock / randomness / thread spawn outside stageleft-quoted (q!) runtime code, and the one ASLR-dependent value stored "
+                "(BacktraceElement.addr) is never read. Determinism of syn/proc_macro2/prettyplease/serde_json is trusted.",
+        "note": "Environment variables are treated as inputs of a compilation. slotmap's SparseSecondaryMap serialises in key order (read in slotmap 1.1.1).",
+        "technique": "exhaustive type-based call scan (disallowed-source rule) on rustc MIR with consumer classification and a reviewed site table",
+    },
 }
